@@ -196,3 +196,41 @@ pub fn clip(s: &str) -> String {
 pub fn case_info(query: &str, input: &[u8]) -> serde_json::Value {
     serde_json::json!({"query": query, "input": String::from_utf8_lossy(input), "input_hex": enc::hexb(input)})
 }
+
+/// stable key of a (query, input) case
+pub fn ckey(query: &str, input: &[u8]) -> String {
+    use std::hash::{Hash, Hasher};
+    let mut h = std::collections::hash_map::DefaultHasher::new();
+    query.hash(&mut h);
+    input.hash(&mut h);
+    format!("{:016x}", h.finish())
+}
+
+/// prepend a unique `"id": i` member to every JSON object line of `input`
+pub fn with_ids(input: &[u8], start: usize) -> Vec<u8> {
+    let mut out = vec![];
+    let mut i = start;
+    for line in input.split_inclusive(|b| *b == b'\n') {
+        if line.first() == Some(&b'{') && line.len() > 2 && line[1] != b'}' {
+            out.extend(format!("{{\"id\":{},", i).into_bytes());
+            out.extend(&line[1..]);
+        } else {
+            out.extend(line);
+        }
+        i += 1;
+    }
+    out
+}
+
+/// output lines of a record-mode run, parsed (order-preserving)
+pub fn record_lines(stdout: &[u8]) -> Option<Vec<Vec<(String, crate::canon::J)>>> {
+    let text = String::from_utf8_lossy(stdout);
+    let mut v = vec![];
+    for l in text.lines().filter(|l| !l.is_empty()) {
+        match crate::canon::normalize(&crate::canon::parse(l).ok()?) {
+            crate::canon::J::Obj(kvs) => v.push(kvs),
+            _ => return None,
+        }
+    }
+    Some(v)
+}
